@@ -201,6 +201,9 @@ func (d *DirectIO) WriteAt(ctx context.Context, f *os.File, block []byte, off in
 		crash()
 	case Pause:
 		p.pause()
+	case PauseFail:
+		p.pause()
+		return 0, ErrInjected
 	case Torn:
 		// a torn write: only a prefix reaches the disk, then the process dies.
 		if p.TornN > 0 {
